@@ -103,7 +103,7 @@ Definition closed_b (U : universe) (W : list string) (S : list pkg) : bool :=
 (* ---- the envelope of c02_closed_partial ------------------------------------------
    no install_if; no package depends on a name it provides; every name (own or
    provided) has exactly one provider; a dependency or request with a version
-   names a package, not a virtual. *)
+   operator names a package, not a virtual. *)
 Definition env_pkg_b (R : resolver) (k : cpkg) : bool :=
   match k_iifs k with [] => true | _ => false end &&
   forallb (fun d => match d_neg d with
@@ -111,7 +111,7 @@ Definition env_pkg_b (R : resolver) (k : cpkg) : bool :=
                     | None => negb (my_provides k (s_name (d_pos d)) || my_provides k (s_raw (d_pos d)))
                     end) (k_deps k).
 Definition versioned_on_real_b (R : resolver) (c : cstr) : bool :=
-  String.eqb (s_version c) "" ||
+  (s_dep c =? dep_versionAny)%Z ||
   match alookup (s_name c) (r_names R) with
   | Some [i] => String.eqb (k_name (getp R i)) (s_name c)
   | Some _ => false
